@@ -60,4 +60,7 @@ class CteExtractor(BaseExtractor):
                         # but a name in its body must not resolve to a CTE that is only defined later
                         self.extract_subquery(subqueries, holder)
 
+        # wildcards over a CTE can only be replaced here, where the CTE bodies and the query reading them are merged
+        holder.expand_wildcard(self.metadata_provider)
+
         return holder
